@@ -20,7 +20,7 @@ import (
 func init() {
 	core.Register(&core.Property{
 		ID:   "C11",
-		Rule: "expression trees up to depth 6 over all 13 precedence levels, function arguments and parenthesised sub-terms (grammar-directed generator, mostly well-typed) plus pure integer/Boolean/string operator trees with a harness-computed value; each tree rendered minimally parenthesised (precedence table, left associativity), fully parenthesised, and with seeded token-gap decorations from {'', ' ', '\\n', '\\t', '/* c */', '// c\\n'}: all renderings must compile or all must fail, evaluate to the same canonical result on every input of a fixed input set (clock fixed), Expression.String() must return the source, and every compiling source extended by a token that cannot continue an expression must be rejected. distinct_nontrivial = distinct trees whose minimal and full renderings differ as text and which evaluate to a value",
+		Rule: "expression trees up to depth 6 over all 13 precedence levels, function arguments and parenthesised sub-terms (grammar-directed generator, mostly well-typed) plus pure integer/Boolean/string operator trees with a harness-computed value; each tree rendered minimally parenthesised (precedence table, left associativity), fully parenthesised, with seeded token-gap decorations from {'', ' ', '\\n', '\\t', '/* c */', '// c\\n'} and as pure blank re-spellings of the minimal rendering; each also through Compile without options when the tree needs none: all renderings must compile or all must fail, evaluate to the same canonical result on every input of a fixed input set (clock fixed), Expression.String() must return the source, and every compiling source extended by a token that cannot continue an expression must be rejected. distinct_nontrivial = distinct trees whose minimal and full renderings differ as text and which evaluate to a value",
 		Assumptions: []string{"unsupported alternatives (|, in, contains, ~) make all renderings fail alike: consistent, not a violation here",
 			"a string or unit word is never appended after a source ending in a NUMBER (that would form a quantity literal)"},
 		Run:    runC11,
@@ -72,6 +72,12 @@ func c11Check(env *core.Env, tree *gen.Expr, seed uint64, label string) {
 		variants = append(variants, struct{ name, src string }{fmt.Sprintf("min-decorated-%d", i), gen.Decorate(tree.Tokens(false), rng)})
 	}
 	variants = append(variants, struct{ name, src string }{"full-decorated", gen.Decorate(tree.Tokens(true), rng)})
+	// pure whitespace re-spellings of the minimal rendering (same tokens, same gap positions, other blanks)
+	for i, sep := range []string{"\n", "  ", "\t", " \n "} {
+		if i == int(seed%4) || i == int((seed/4)%4) {
+			variants = append(variants, struct{ name, src string }{"min-blanks", gen.JoinWith(tree.Tokens(false), sep)})
+		}
+	}
 	if min != full {
 		env.Cover("min-differs-from-full")
 	}
@@ -79,7 +85,7 @@ func c11Check(env *core.Env, tree *gen.Expr, seed uint64, label string) {
 	eo := append(gen.EnvOpts(gen.StdEnv()), c11Clock)
 	inputs := c11Inputs()
 	var base []fx.Res
-	var baseCompiled bool
+	var baseCompiled, plainBase bool
 	for vi, v := range variants {
 		if len(v.src) > 2000 {
 			env.Skip("source-too-long")
@@ -117,6 +123,28 @@ func c11Check(env *core.Env, tree *gen.Expr, seed uint64, label string) {
 		if ex.String() != v.src {
 			env.Violatef("C11/expression-string", "Expression.String() = %q for source %q", ex.String(), v.src)
 		}
+		// the same source through Compile without options (when the tree needs none): same acceptance, text and results
+		var plain *fhirpath.Expression
+		if vi == 0 || plainBase {
+			var pr fx.Res
+			plain, pr = fx.Compile(env, v.src)
+			if pr.IsPanic() {
+				env.Violatef(fx.PanicSig("C11", pr), "Compile(%q) without options => %s", v.src, pr.Short())
+				return
+			}
+			if vi == 0 {
+				plainBase = plain != nil
+			} else if plain == nil {
+				env.Violatef("C11/compile-disagreement/no-options/"+variantClass(v.name), "min %q compiles without options, %s %q does not: %s", min, v.name, v.src, trunc(pr.Short(), 120))
+				return
+			}
+			if plain != nil {
+				env.Cover("compiled-without-options")
+				if plain.String() != v.src {
+					env.Violatef("C11/expression-string", "Expression.String() = %q for source %q (Compile without options)", plain.String(), v.src)
+				}
+			}
+		}
 		for ii, in := range inputs {
 			r := fx.Evaluate(env, ex, in, eo...)
 			if r.IsPanic() {
@@ -130,6 +158,12 @@ func c11Check(env *core.Env, tree *gen.Expr, seed uint64, label string) {
 			if !fx.Same(base[ii], r) {
 				env.Violatef("C11/evaluation-disagreement/"+variantClass(v.name), "renderings of one tree evaluate differently on input %d: min %q => %s ; %s %q => %s", ii, min, trunc(base[ii].Short(), 120), v.name, v.src, trunc(r.Short(), 120))
 				return
+			}
+			if plain != nil && ii == 0 {
+				if pr := fx.Evaluate(env, plain, in, eo...); !fx.Same(base[ii], pr) {
+					env.Violatef("C11/evaluation-disagreement/no-options/"+variantClass(v.name), "min %q => %s ; %s %q compiled without options => %s", min, trunc(base[ii].Short(), 120), v.name, v.src, trunc(pr.Short(), 120))
+					return
+				}
 			}
 		}
 	}
@@ -148,6 +182,8 @@ func variantClass(name string) string {
 		return "token-gaps"
 	case name == "full-decorated":
 		return "token-gaps-full"
+	case name == "min-blanks":
+		return "blanks"
 	}
 	return "parentheses"
 }
